@@ -62,6 +62,7 @@ def check(run):
             if m.strip() != want.strip():
                 if len(run.model_fail) < 10:
                     run.model_fail.append((s[1].abstract, {"model": m[:800], "reference(=implementation)": want[:800], "session": s[0][:1500]}))
+    E.scale_check(run, seen, "exp")
     run.exhaustive = True
     run.extra["exhaustive_over"] = "call sequences of length <= %d over a 9-op alphabet x 4 block sizes x 3 hint settings" % maxlen
 
